@@ -442,7 +442,20 @@ impl DepthFirstSearch {
         }
 
         // Parse goal pattern into a Condition and use ConditionEvaluator
-        if let Some(condition) = self.parse_goal_pattern(&goal.pattern) {
+        if let Some(mut condition) = self.parse_goal_pattern(&goal.pattern) {
+            // A goal literal such as `5` carries no type (it is read as the float 5.0): when the
+            // fact holds an integer, compare it as that integer, so `X.n == 5` can hold of Integer(5)
+            if let Value::Number(n) = condition.value {
+                let fact = facts
+                    .get_nested(&condition.field)
+                    .or_else(|| facts.get(&condition.field));
+                if matches!(fact, Some(Value::Integer(_)))
+                    && n.fract() == 0.0
+                    && n.abs() < 9007199254740992.0
+                {
+                    condition.value = Value::Integer(n as i64);
+                }
+            }
             // Use RuleExecutor's evaluator (which delegates to ConditionEvaluator)
             self.executor
                 .evaluate_condition(&condition, facts)
@@ -1032,7 +1045,20 @@ impl BreadthFirstSearch {
         }
 
         // Parse goal pattern into a Condition and use ConditionEvaluator
-        if let Some(condition) = self.parse_goal_pattern(&goal.pattern) {
+        if let Some(mut condition) = self.parse_goal_pattern(&goal.pattern) {
+            // A goal literal such as `5` carries no type (it is read as the float 5.0): when the
+            // fact holds an integer, compare it as that integer, so `X.n == 5` can hold of Integer(5)
+            if let Value::Number(n) = condition.value {
+                let fact = facts
+                    .get_nested(&condition.field)
+                    .or_else(|| facts.get(&condition.field));
+                if matches!(fact, Some(Value::Integer(_)))
+                    && n.fract() == 0.0
+                    && n.abs() < 9007199254740992.0
+                {
+                    condition.value = Value::Integer(n as i64);
+                }
+            }
             // Use RuleExecutor's evaluator (which delegates to ConditionEvaluator)
             self.executor
                 .evaluate_condition(&condition, facts)
